@@ -25,7 +25,7 @@ var (
 func genForest(r *prng.R, n int) []*genQuota {
 	var qs []*genQuota
 	for i := 0; i < n; i++ {
-		q := &genQuota{quotaCfg: quotaCfg{id: i, parent: -1, max: prng.Pick(r, maxes), win: prng.Pick(r, wins), gh: -1}, depth: 1, start: -1}
+		q := &genQuota{quotaCfg: quotaCfg{id: i, parent: -1, max: prng.Pick(r, maxes), win: prng.Pick(r, wins), gh: -1, cc: -1, pct: -1}, depth: 1, start: -1}
 		if i > 0 && r.Chance(70) {
 			var cands []int
 			for _, p := range qs {
@@ -41,6 +41,15 @@ func genForest(r *prng.R, n int) []*genQuota {
 		if r.Chance(40) {
 			q.gh = r.Intn(2)
 		}
+		if r.Chance(25) { // fixed_window_custom_counter: charged by the value of header x-c<cc>
+			q.cc = r.Intn(2)
+			q.max = prng.Pick(r, []int64{1, 3, 5, 9})
+		}
+		if q.parent >= 0 && r.Chance(25) { // allocation_percentage child: the loader copies the parent's strategy
+			p := qs[q.parent]
+			q.pct = prng.Pick(r, []int{1, 10, 33, 50, 60, 100})
+			q.max, q.win, q.gh, q.cc = p.max*int64(q.pct)/100, p.win, p.gh, p.cc
+		}
 		qs = append(qs, q)
 	}
 	return qs
@@ -52,6 +61,12 @@ func quotaLine(q quotaCfg) string {
 			return "-"
 		}
 		return fmt.Sprint(v)
+	}
+	if q.pct >= 0 {
+		return fmt.Sprintf("quota id=%d parent=%s pct=%d", q.id, opt(q.parent), q.pct)
+	}
+	if q.cc >= 0 {
+		return fmt.Sprintf("quota id=%d parent=%s max=%d win=%d gh=%s cc=%d", q.id, opt(q.parent), q.max, q.win, opt(q.gh), q.cc)
 	}
 	return fmt.Sprintf("quota id=%d parent=%s max=%d win=%d gh=%s", q.id, opt(q.parent), q.max, q.win, opt(q.gh))
 }
@@ -107,10 +122,34 @@ func noteArrival(chain []*genQuota, t int64) {
 }
 
 type pending struct {
-	q    int
-	r    int
-	hdrs string
-	prog []string
+	q     int
+	r     int
+	hdrs  string
+	costs string
+	prog  []string
+}
+
+// texts of a counter-value header: small values, and the glue cases (absent, empty, non-numeric, signed,
+// negative, zero, larger than any limit, int64 limits)
+var costTexts = []string{"1", "1", "2", "2", "3", "1", "2", "0", "4", "10", "-1", "-5", "+2", "abc", "%201", "1.0", "%e",
+	"007", "9223372036854775807", "9223372036854775808", "-9223372036854775808"}
+
+func genCosts(r *prng.R, chain []*genQuota) string {
+	var parts []string
+	seen := map[int]bool{}
+	for _, q := range chain {
+		if q.cc >= 0 && !seen[q.cc] {
+			seen[q.cc] = true
+			if r.Chance(8) {
+				continue // header absent
+			}
+			parts = append(parts, fmt.Sprintf("%d:%s", q.cc, prng.Pick(r, costTexts)))
+		}
+	}
+	if len(parts) == 0 {
+		return ""
+	}
+	return " costs=" + strings.Join(parts, ",")
 }
 
 func genCase(r *prng.R, id string, level int, big bool) proto.Case {
@@ -151,6 +190,7 @@ func genCase(r *prng.R, id string, level int, big bool) proto.Case {
 	var pend []*pending
 	for i := 0; i < nreq; i++ {
 		p := &pending{q: prng.Pick(r, targets), r: i + 1, hdrs: prng.Pick(r, hdrPool)}
+		p.costs = genCosts(r, chainOf(qs, p.q))
 		switch {
 		case mode < 35:
 			p.prog = []string{"req"}
@@ -186,7 +226,11 @@ func genCase(r *prng.R, id string, level int, big bool) proto.Case {
 		if kind == "inc" || kind == "req" {
 			noteArrival(ch, now)
 		}
-		ops = append(ops, fmt.Sprintf("%s q=%d r=%d t=%d hdrs=%s", kind, p.q, p.r, now, p.hdrs))
+		costs := p.costs
+		if mode >= 80 && r.Chance(10) { // irregular: a call of the same request with other header values
+			costs = genCosts(r, ch)
+		}
+		ops = append(ops, fmt.Sprintf("%s q=%d r=%d t=%d hdrs=%s%s", kind, p.q, p.r, now, p.hdrs, costs))
 		if len(p.prog) == 0 {
 			pend = append(pend[:k], pend[k+1:]...)
 		}
@@ -319,6 +363,30 @@ func enumerate(emit func(proto.Case)) {
 				id++
 				emit(proto.Case{ID: fmt.Sprintf("x%d", id), Ops: ops})
 			}
+		}
+	}
+	// custom counter: every sequence of 4 header texts over a small alphabet, flat quota max 3 and a
+	// child (max 3) under a fixed_window parent (max 2), all at one instant
+	texts := []string{"0", "1", "2", "3", "4", "-1", "abc"}
+	for _, hier := range []bool{false, true} {
+		for m := 0; m < 7*7*7*7; m++ {
+			var ops []string
+			target := 0
+			if hier {
+				ops = append(ops, fmt.Sprintf("quota id=0 parent=- max=2 win=%d gh=-", win))
+				ops = append(ops, fmt.Sprintf("quota id=1 parent=0 max=3 win=%d gh=- cc=0", win))
+				target = 1
+			} else {
+				ops = append(ops, fmt.Sprintf("quota id=0 parent=- max=3 win=%d gh=- cc=0", win))
+			}
+			ops = append(ops, fmt.Sprintf("start level=1 t=%d", t0))
+			x := m
+			for k := 0; k < 4; k++ {
+				ops = append(ops, fmt.Sprintf("req q=%d r=%d t=%d hdrs=- costs=0:%s", target, k+1, t0, texts[x%7]))
+				x /= 7
+			}
+			id++
+			emit(proto.Case{ID: fmt.Sprintf("y%d", id), Ops: ops})
 		}
 	}
 	_ = sort.Ints
